@@ -77,6 +77,12 @@ func (prop) Gen(r *core.Rand, tier string) []core.Case {
 		{ID: "fix-protocol", Ops: []string{"open", "size", "read 1 1", "new", "open", "write g:1:10", "open", "sum", "size", "open", "readat 3 4 4", "readat 3 4 2", "seek x 0", "frob"}},
 		{ID: "fix-two-chunks", NT: true, Ops: []string{"new", fmt.Sprintf("write p:11:%d:65536", C+100), "sum", "open", "size",
 			fmt.Sprintf("readat %d 200 200", C-100), fmt.Sprintf("readat %d 1 1", C), fmt.Sprintf("readat %d 100 100", C+99), "readat 0 10 10", fmt.Sprintf("seek 100 2"), "read 300 300", "seek 0 0", "readall"}},
+		// a short write followed by ONE write that completes the buffered chunk and spans further full chunks
+		// (the feeder's flush loop runs several times within a single Write call while a partial chunk was buffered)
+		{ID: "fix-short-then-big-write", NT: true, Ops: []string{"new", "write p:13:100:100", fmt.Sprintf("write p:14:%d:4099", 2*C+1000), "write p:15:7:7", "sum", "open", "size",
+			"readat 0 300 300", fmt.Sprintf("readat %d 300 300", C-150), fmt.Sprintf("readat %d 300 300", 2*C-150), "readall"}},
+		{ID: "fix-enc-short-then-big-write", NT: true, Ops: []string{"new enc", "write p:13:100:100", fmt.Sprintf("write p:14:%d:4099", 2*C+1000), "sum", "open", "size",
+			fmt.Sprintf("readat %d 300 300", C-150), "readall"}},
 		{ID: "fix-enc-two-chunks", NT: true, Ops: []string{"new enc", fmt.Sprintf("write p:12:%d:65536", C+100), "sum", "open", "size",
 			fmt.Sprintf("readat %d 200 200", C-100), "seek 50 2", "read 100 100", "seek 0 0", "readall"}},
 	}
